@@ -31,6 +31,12 @@
    Right-hand side: (observed - computed) * 1e3 [mm] for lengths, * R2CC [cc] for angles, angles reduced by whole
    circles (400e4 cc) into half a circle around zero.
 
+   HALF-OPEN RANGE (checks <fn>_halfopen, -DLIN_HALFOPEN=1): the property asks for "the half-open range of half a
+   circle" without saying which end is open.  It holds iff AT LEAST ONE of the two clauses `rhs > -200e4`,
+   `rhs < 200e4` holds for all inputs.  On the tree as found BOTH fail (the reduction `while (a > 200e4) ...
+   while (a < -200e4) ...` keeps both ends: closed interval, DESIGN.md section 6 item 11; native demonstration in
+   replay.cpp).  When the repository adopts a convention, the clause for the other end is to be deleted.
+
    TWO checks per function (same contract text, selected by -DLIN_VALUES):
      <fn>      LIN_VALUES=0, SAT:  row structure -- size, index set (each unknown once), index-assignment protocol,
                maxn, frame (assigns clause), memory safety, reduction loops (invariants, termination, range);
@@ -43,6 +49,9 @@
 #include "lin_gen.h" /* generated from the repository by lin_pre.py: M_PI, R2G, R2CC, ...; LocalPoint status enum; CS */
 #ifndef LIN_VALUES
 #define LIN_VALUES 0
+#endif
+#ifndef LIN_HALFOPEN
+#define LIN_HALFOPEN 0
 #endif
 
 typedef int PointID;
@@ -97,6 +106,7 @@ struct lin_record {
   double sqrt_arg[2];
   double atan2_y[2], atan2_x[2];
   double acos_arg;
+  double north; /* value returned by PointData::xNorthAngle() */
   double raw; /* angular misclosure before the reduction loops */
   int j1, j2; /* iterations of the two reduction loops */
 } G;
@@ -159,6 +169,14 @@ struct LocalPoint *PointData_at(struct PointData *pd, PointID id)
 {
   __CPROVER_assert(0 <= id && id < NPTS, "point id is present in the point map");
   return &pd->pts[id];
+}
+
+/* recording shim around the REAL (extracted) PointData::xNorthAngle: lets the contracts name the returned value */
+double PointData_xNorthAngle(const struct PointData *self);
+double lin_north(const struct PointData *pd)
+{
+  G.north = PointData_xNorthAngle(pd);
+  return G.north;
 }
 
 /* prototypes of extracted functions (definition order in the generated file is the unit.json order) */
@@ -296,6 +314,11 @@ bool AngularObservations_right_handed_angles(const struct PointData *self);
 #if LIN_VALUES
 #define LIN_INST_RAW(a, spec) do { __CPROVER_assert((a) == (spec), "instantiation index in range: loops start from the misclosure that the precondition bounds"); \
                                    __CPROVER_assume(RAW_OK(a)); } while (0)
+#elif defined(LIN_EXCL_HALFCIRCLE)
+/* exclusion predicate of the known finding "closed interval": the raw misclosure is not exactly an odd multiple of
+   half a circle (the only inputs for which +200 gon / -200 gon are two names of the same angle) */
+#define ODD_HALF(a) ((a) == 200e4 || (a) == -200e4 || (a) == 600e4 || (a) == -600e4 || (a) == 1000e4 || (a) == -1000e4)
+#define LIN_INST_RAW(a, spec) __CPROVER_assume(RAW_OK(a) && !ODD_HALF(a))
 #else
 #define LIN_INST_RAW(a, spec) __CPROVER_assume(RAW_OK(a))
 #endif
@@ -447,6 +470,10 @@ __CPROVER_ensures((gv_exc == 0) == (SP(obs)->test_or != 0))
 __CPROVER_ensures(G.nsqrt == 1 && G.natan2 == 1 && G.nsin == 1 && G.ncos == 1 && TRIG_OF(0) && HINTS_EQ(0))
 __CPROVER_ensures(gv_exc == 0 ==> (ORIX(obs) == SP(obs)->attr_or && REDUCED(self)))
 __CPROVER_ensures(gv_exc == 0 ==> POST_ROW(ALL5, SUM5, U_OR, U_FX, U_FY, U_TX, U_TY))
+#if LIN_HALFOPEN
+__CPROVER_ensures(gv_exc == 0 ==> self->rhs > -200e4) /* half-open (-200, 200] gon */
+__CPROVER_ensures(gv_exc == 0 ==> self->rhs < 200e4)  /* half-open [-200, 200) gon */
+#endif
 #endif
 //@ entry LocalLinearization_direction
 GV_CANARY("LocalLinearization_direction entry");
@@ -561,6 +588,10 @@ __CPROVER_ensures(COEF_(U_SY, K2C2) && COEF_(U_SX, -K2S2))
 __CPROVER_ensures(gv_exc == 0 && G.nsqrt == 2 && G.natan2 == 2 && G.nsin == 2 && G.ncos == 2 && TRIG_OF(0) && TRIG_OF(1) && HINTS_EQ(0) && HINTS_EQ(1))
 __CPROVER_ensures(REDUCED(self))
 __CPROVER_ensures(POST_ROW(ALL6, SUM6, U_FX, U_FY, U_TX, U_TY, U_SX, U_SY))
+#if LIN_HALFOPEN
+__CPROVER_ensures(self->rhs > -200e4) /* half-open (-200, 200] gon */
+__CPROVER_ensures(self->rhs < 200e4)  /* half-open [-200, 200) gon */
+#endif
 #endif
 //@ entry LocalLinearization_angle
 GV_CANARY("LocalLinearization_angle entry");
@@ -593,9 +624,11 @@ GV_CANARY("PointData_xNorthAngle entry");
 
 /* ================================================================================================== */
 /* azimuth: phi = s - N.  Row as direction without the orientation.  rhs = (observed + N - s) * R2CC reduced.
-   PointData::xNorthAngle is replaced by its contract (verified by check xNorthAngle).                   */
+   N is the value returned by the extracted PointData::xNorthAngle (recorded by the shim lin_north); the structure
+   check proves N == NORTH_GON * G2R for the coordinate system at hand, check xNorthAngle proves it for the function
+   in isolation.                                                                                          */
 //@ contract LocalLinearization_azimuth
-#define RAW_azimuth ((VALUE(obs) + NORTH_GON(self->PD) * G2R - BRGX(0)) * R2CC)
+#define RAW_azimuth ((VALUE(obs) + G.north - BRGX(0)) * R2CC)
 __CPROVER_requires(SHAPE2(self, obs) && CS_OK(self->PD) && NONSING(0) && TRIG(0) && PRE_UNK4(U_FX, U_FY, U_TX, U_TY))
 #if LIN_VALUES
 __CPROVER_requires(RAW_OK(RAW_azimuth)) /* stated precondition, used through LIN_INST_RAW */
@@ -608,8 +641,13 @@ __CPROVER_ensures(COEF_(U_FY, -(KANG(DISTX(0)) * P.C[0])) && COEF_(U_FX, KANG(DI
 __CPROVER_ensures(COEF_(U_TY, KANG(DISTX(0)) * P.C[0]) && COEF_(U_TX, -(KANG(DISTX(0)) * P.S[0])))
 #else
 __CPROVER_ensures(gv_exc == 0 && G.nsqrt == 1 && G.natan2 == 1 && G.nsin == 1 && G.ncos == 1 && TRIG_OF(0) && HINTS_EQ(0))
+__CPROVER_ensures(G.north == NORTH_GON(self->PD) * G2R)
 __CPROVER_ensures(REDUCED(self))
 __CPROVER_ensures(POST_ROW(ALL4, SUM4, U_FX, U_FY, U_TX, U_TY))
+#if LIN_HALFOPEN
+__CPROVER_ensures(self->rhs > -200e4) /* half-open (-200, 200] gon */
+__CPROVER_ensures(self->rhs < 200e4)  /* half-open [-200, 200) gon */
+#endif
 #endif
 //@ entry LocalLinearization_azimuth
 GV_CANARY("LocalLinearization_azimuth entry");
